@@ -15,6 +15,8 @@ ASSUMPTIONS = [
     'the cipher is an uninterpreted function E_alg(key, block) with the real library\'s key/data length checks and D(k, E(k, x)) = x: the claim is '
     'the data flow into and out of the cipher, not the numerical correctness of 3DES/AES (OpenSSL behind FFI, outside this technique)',
     'secrets.randbits returns a fresh 64-bit vector per call (calls counted)',
+    'a cipher context keeps the bytes of an incomplete block between update() calls and refuses them at finalize() (the library\'s behaviour), '
+    'so a context that outlives a call carries its leftover into the next one',
 ]
 
 
@@ -166,6 +168,50 @@ def enc(clsname, keylens):
     return h
 
 
+def enc_after_refused(clsname, keylens):
+    """history: data that is not a whole number of cipher blocks is handed to encrypt()/decrypt() under a key (refused with ValueError by
+    the library), then a PIN block is encrypted and read back under the same key in the same process"""
+    def h():
+        pb = P().pinblock
+        cls = getattr(pb, clsname)
+        is0 = clsname.startswith('Iso0')
+        bs = 8 if is0 else 16
+        lp = choose('pinlen', [4, 12])
+        kl = choose('keybytes', keylens)
+        nj = choose('refused-bytes', [1, bs - 1, bs + 3])
+        direction = choose('refused-call', ['encrypt', 'decrypt', 'both'])
+        pin = hex_string('pin', lp, digits_only=True)
+        pan = hex_string('pan', 16, digits_only=True)
+        key = hex_string('key', 2 * kl)
+        junk = hex_string('refused', 2 * nj)
+
+        def rp():
+            return {'kind': 'enc_history', 'args': {'cls': clsname, 'pin': concretize_str(pin, ev), 'pan': concretize_str(pan, ev), 'key': concretize_str(key, ev),
+                                                    'refused': concretize_str(junk, ev), 'direction': direction}}
+        core.set_fallback(rp, 'C13/concretised')
+        for d in (['encrypt', 'decrypt'] if direction == 'both' else [direction]):
+            try:
+                getattr(cls, d)(key, junk.__sunhexlify__())
+            except ValueError:
+                pass
+        with guard(clsname, 'C13/enc-exception', rp):
+            obj = cls(pin, card_number=pan) if is0 else cls(pin)
+            clear = obj.to_bytes()
+            ct = obj.to_enc_bytes(key)
+        alg = '3DES' if is0 else 'AES'
+        keyb = key.__sunhexlify__()
+        want = []
+        for i in range(0, len(clear), bs):
+            want += HexInt.from_bv(cryptostub.reference_E(alg, keyb, clear[i:i + bs].bv())).nibs
+        require(isinstance(ct, SymBytes) and nibs_eq(ct.nibs, want), 'after a refused call under the same key the encrypted form is not the ECB encryption of the clear block',
+                key='C13/enc-history', replay=rp)
+        with guard(clsname + '.from_enc_bytes', 'C13/enc-exception', rp):
+            back = cls.from_enc_bytes(ct, key, card_number=pan) if is0 else cls.from_enc_bytes(ct, key)
+        require(back.pin == pin, 'after a refused call under the same key decrypting the encrypted block does not give the PIN back', key='C13/enc-history', replay=rp)
+        return {'sample': rp()['args'], 'replay': rp(), 'checked': 2}
+    return h
+
+
 def obligations(tier):
     return [
         Ob('iso0/clear', iso0(), 300, 'PIN length 4..12 x PAN length 13..19 (all 63 pairs), all digit values', _funcs),
@@ -174,4 +220,8 @@ def obligations(tier):
         Ob('iso4/clear/random-drawn', iso4(False), 300, 'PIN length 4..12, all digits, fill drawn from secrets', _funcs),
         Ob('iso0/tdes', enc('Iso0TDESPinBlockWithVisaPVV', [16, 24]), 300, 'PIN 4..12, PAN 16 digits, all keys of 16 / 24 bytes', _funcs),
         Ob('iso4/aes', enc('Iso4AESPinBlockWithVisaPVV', [16, 24, 32]), 300, 'PIN 4/6/9/12 digits, all keys of 16 / 24 / 32 bytes', _funcs),
+        Ob('iso0/tdes/after-refused-data', enc_after_refused('Iso0TDESPinBlockWithVisaPVV', [16, 24]), 300,
+           'history: encrypt/decrypt/both refuse 1, 7 or 11 arbitrary bytes under a key, then PIN 4/12 digits under the same key (all keys of 16 / 24 bytes)', _funcs),
+        Ob('iso4/aes/after-refused-data', enc_after_refused('Iso4AESPinBlockWithVisaPVV', [16, 32]), 300,
+           'history: encrypt/decrypt/both refuse 1, 15 or 19 arbitrary bytes under a key, then PIN 4/12 digits under the same key (all keys of 16 / 32 bytes)', _funcs),
     ]
